@@ -104,6 +104,28 @@ def enum5b (a : Nat) : String := Id.run do
           out := out ++ toString code ++ " "
   return out
 
+def handSum (h : List Nat) : Nat :=
+  match h with
+  | [a, b, c, d, e] => (a + 3 * b + 5 * c + 7 * d + 11 * e) % 1000003
+  | _ => 0
+
+/-- bulk request: every six-card hand whose lowest deck index is `a` (canonical slot order);
+    per hand `value` and a checksum of the reported best hand -/
+def enum6 (a : Nat) : String := Id.run do
+  let mut out := ""
+  for b in [a+1:52] do
+    for c in [b+1:52] do
+      for d in [c+1:52] do
+        for e in [d+1:52] do
+          for f in [e+1:52] do
+            let h := [deckArr[a]!, deckArr[b]!, deckArr[c]!, deckArr[d]!, deckArr[e]!, deckArr[f]!]
+            let code :=
+              match handRankValueAndHand6 T h with
+              | none => "panic"
+              | some (v, hand) => toString v ++ " " ++ toString (handSum hand)
+            out := out ++ code ++ " "
+  return out
+
 /-- spec-only oracle: every class with its position (1 = strongest) in the order by `Spec.strength`,
     its strength, and the names of its category and class (`Spec.categoryName`, `Spec.specName`) -/
 def oracle5 : String := Id.run do
@@ -144,6 +166,7 @@ def answer (cmd : String) (args : List Nat) : String :=
   | "enum5", [a, p] => enum5 a p
   | "oracle5", [] => oracle5
   | "enum5b", [a] => enum5b a
+  | "enum6", [a] => enum6 a
   | "ev5", [a, b, c, d, e] =>
     let h := [a, b, c, d, e]
     joinStrs [showValueHand (handRankValueAndHand5 T h), showOpt (handRankValue5 T h),
